@@ -5,6 +5,10 @@
 // usage: drive <maxlen> <shard> <nshards> <seed>
 #include "dd_dtw.h"
 #include <string.h>
+#ifdef VF_OMP
+#include "dd_dtw_openmp.h"
+#include <omp.h>
+#endif
 
 static unsigned long long rs;
 static unsigned rnd(void) { rs = rs * 6364136223846793005ULL + 1442695040888963407ULL; return (unsigned)(rs >> 33); }
@@ -16,7 +20,7 @@ static const char *names[40] = {"dtw_distance", "dtw_distance_ndim", "dtw_warpin
     "dtw_wps_max", "dtw_wps_negativize/positivize", "dtw_wps_loc(_columns)", "ub_euclidean*", "lb_keogh*",
     "euclidean_distance*", "dtw_distances_ptrs", "dtw_distances_ndim_ptrs", "dtw_distances_matrix", "dtw_distances_ndim_matrix",
     "dtw_distances_matrices", "dtw_distances_ndim_matrices", "dtw_dba_ptrs", "dtw_dba_matrix", "dtw_distances_length",
-    "dtw_wps_negativize_value", 0};
+    "dtw_wps_negativize_value", "dtw_distances_*_parallel", 0};
 static double checksum = 0;
 static unsigned long ncfg = 0;
 static void acc(double v) { if (v == v && v < 1e300 && v > -1e300) checksum += v; else checksum += 0.5; }
@@ -113,7 +117,7 @@ static void one(idx_t l1, idx_t l2, int ndim, DTWSettings *st) {
 }
 
 #define SENTINEL (-1.2345678912345e-250)
-static long unwritten = 0;
+static long unwritten = 0, pardiff = 0;
 static void matrices(int n, int ndim, int maxlen, DTWSettings *st) {
     // all blocks for n series, ptrs and matrix layouts, outputs of exactly dtw_distances_length
     idx_t *lengths = malloc(sizeof(idx_t) * n); seq_t **ptrs = malloc(sizeof(seq_t *) * n);
@@ -127,7 +131,13 @@ static void matrices(int n, int ndim, int maxlen, DTWSettings *st) {
             if (n > 3 && rnd() % 4 != 0) continue;
             DTWBlock b = dtw_block_empty(); b.rb = rb; b.re = (rb == re) ? 0 : re; b.cb = cb; b.ce = (cb == ce) ? 0 : ce; b.triu = triu;
             DTWBlock b2 = b; idx_t len = dtw_distances_length(&b2, n, n); calls[31]++;
+#ifdef VF_OMP
+            seq_t *serial_out[6] = {0, 0, 0, 0, 0, 0};
+            for (int route = 0; route < 12; route++) {
+                if (route == 6) omp_set_num_threads(1 + rnd() % 4);
+#else
             for (int route = 0; route < 6; route++) {
+#endif
                 seq_t *out = malloc(sizeof(seq_t) * (len ? len : 0) + (len ? 0 : 1)); b2 = b; idx_t got = 0;
                 for (idx_t q = 0; q < len; q++) out[q] = SENTINEL;
                 switch (route) {
@@ -137,14 +147,35 @@ static void matrices(int n, int ndim, int maxlen, DTWSettings *st) {
                     case 3: got = dtw_distances_ndim_matrix(matrix, n, L0, ndim, out, &b2, st); calls[26]++; break;
                     case 4: if (ndim == 1) { got = dtw_distances_matrices(matrix, n, L0, matrix, n, L0, out, &b2, st); calls[27]++; } else got = len; break;
                     case 5: got = dtw_distances_ndim_matrices(matrix, n, L0, matrix, n, L0, ndim, out, &b2, st); calls[28]++; break;
+#ifdef VF_OMP
+                    // the OpenMP twins (dd_dtw_openmp.c): same exact-size output buffers
+                    case 6: got = dtw_distances_ptrs_parallel(ptrs, n, lengths, out, &b2, st); calls[33]++; break;
+                    case 7: got = dtw_distances_ndim_ptrs_parallel(ptrs, n, lengths, ndim, out, &b2, st); calls[33]++; break;
+                    case 8: if (ndim == 1) { got = dtw_distances_matrix_parallel(matrix, n, L0, out, &b2, st); calls[33]++; } else got = len; break;
+                    case 9: got = dtw_distances_ndim_matrix_parallel(matrix, n, L0, ndim, out, &b2, st); calls[33]++; break;
+                    case 10: if (ndim == 1) { got = dtw_distances_matrices_parallel(matrix, n, L0, matrix, n, L0, out, &b2, st); calls[33]++; } else got = len; break;
+                    case 11: got = dtw_distances_ndim_matrices_parallel(matrix, n, L0, matrix, n, L0, ndim, out, &b2, st); calls[33]++; break;
+#endif
                 }
                 if (got != len) { printf("LENGTH-MISMATCH route=%d n=%d block=%d,%d,%d,%d triu=%d got=%zd len=%zd\n", route, n, rb, re, cb, ce, triu, got, len); }
                 // every advertised entry must have been written (the Python wrapper hands over uninitialised memory)
-                if (!(route == 2 && ndim != 1) && !(route == 4 && ndim != 1))
+                int skipped = (ndim != 1) && (route == 2 || route == 4 || route == 8 || route == 10);
+                if (!skipped)
                     for (idx_t q = 0; q < len; q++) if (out[q] == SENTINEL) {
                         printf("UNWRITTEN route=%d n=%d ndim=%d block=%d,%d,%d,%d triu=%d idx=%zd len=%zd\n", route, n, ndim, rb, re, cb, ce, triu, q, len); unwritten++; break; }
-                if (len && !(route == 2 && ndim != 1) && !(route == 4 && ndim != 1)) acc(out[len - 1]);
+                if (len && !skipped && route < 6) acc(out[len - 1]);
+#ifdef VF_OMP
+                if (route < 6) { serial_out[route] = out; continue; }
+                if (!skipped && serial_out[route - 6] && got == len)
+                    for (idx_t q = 0; q < len; q++) {
+                        seq_t x = serial_out[route - 6][q], y = out[q];
+                        if (!(x == y || (x != x && y != y))) { printf("PARALLEL-DIFFERS route=%d n=%d ndim=%d block=%d,%d,%d,%d triu=%d idx=%zd serial=%g parallel=%g\n", route, n, ndim, rb, re, cb, ce, triu, q, x, y); pardiff++; break; }
+                    }
                 free(out);
+                if (route == 11) for (int q = 0; q < 6; q++) { free(serial_out[q]); serial_out[q] = 0; }
+#else
+                free(out);
+#endif
             }
         }
     // DBA with unequal lengths, masks across the byte boundary when n > 8
